@@ -44,7 +44,7 @@ TRUSTED_BASE = [
     "hand-written model of crypto.py encrypt_cell/decrypt_cell/outgoing_crypto/incoming_crypto/relay_cell/process_cell/send_cell "
     "(Ipv8/C04/Model.lean), tied to the code by the correspondence run of harness/c04.py on the repo's mock network",
     "the harness's peel analysis (decrypting tapped bodies with the nodes' real session keys) and its reading of the real routing tables",
-    "harness-side replacements under the real exit socket: TunnelProtocol.open (fake transport on the mock internet), TunnelExitSocket.resolve (fake DNS), is_allowed in open-policy scenarios",
+    "harness-side replacements under the real exit socket: TunnelProtocol.open (fake transport on the mock internet), the event loop's getaddrinfo under the real TunnelExitSocket.resolve (mock DNS), is_allowed in open-policy scenarios",
 ]
 ASSUMPTIONS = [
     "CONFIDENTIALITY of the AEAD is NOT a law of the model and not proved: theorems give layer counts, lengths, whole-body distinctness and a symbolic "
@@ -325,7 +325,7 @@ class Sim:
     def _patch_exit_io(self):
         """Real `TunnelExitSocket.enable / sendto / datagram_received / close` run unchanged.  Replaced underneath them:
         `TunnelProtocol.open` (returns a transport on the mock internet after 5 virtual ms, so the send queue is
-        exercised), `TunnelExitSocket.resolve` (deterministic fake DNS after 10 virtual ms) and, when the scenario says
+        exercised), the loop's `getaddrinfo` under the real `resolve` (deterministic mock DNS after 10 virtual ms) and, when the scenario says
         "open policy", `is_allowed`."""
         from ipv8.messaging.anonymization import exit_socket as xmod
         from ipv8.messaging.interfaces.endpoint import EndpointListener
@@ -1297,8 +1297,8 @@ async def tamper_round(ctx, rng, ck: Checker, sim: Sim, senders, hops, open_poli
 
 
 async def tamper_shapes(ctx, rng, ck: Checker, sim: Sim, senders, nlinks, open_policy, kindtag):
-    """alterations other than one flipped byte: truncation, extension, plaintext flag set together with a first body byte
-    of 2/3 (so that the cell claims to be a plaintext create/created), circuit id replaced together with a body byte"""
+    """alterations other than one flipped byte: truncation, extension, authentication tag cut off, plaintext flag set together
+    with a first body byte of 2/3 (so that the cell claims to be a plaintext create/created)"""
     tag = ck.tag
     shapes = ["truncate", "extend", "flag+create", "flag+created", "drop-tag"]
     for direction in ("fwd", "bwd"):
@@ -1948,7 +1948,7 @@ async def run_teardown(ctx: Ctx, rng, hops: int, use_model: bool, seed_tag: str)
             rn, rcid = path[0]
             sim.nodes[rn].overlay.remove_relay(rcid, "test", destroy=True)
         await sim.settle()
-        # the model keeps every entry during remove_tunnel_delay (nothing has been removed yet)
+        # nothing has been removed yet during remove_tunnel_delay: the tables loaded into the model before still describe the nodes
         compare_cover("during remove_tunnel_delay")
         live = (exit_node, exit_cid) in sim.live_exit_sockets()
         still_listed = exit_cid in xo.exit_sockets
